@@ -7,9 +7,11 @@ implementation with mock gradient methods (no external program) and compared exa
 parts that are facts about numpy's eigh / qr (frame independence of the spectrum, completeness of the
 projection) are exercised by implementation oracles on analytic bond-network potentials.
 """
+import hashlib
 import itertools
 import math
 import os
+import re
 import sys
 from fractions import Fraction
 
@@ -34,8 +36,10 @@ TRUSTED_BASE = [
     "translators tr/translate_c11.py (formulas + index expressions of autode/hessians.py -> gen/C11_Gen.v) and "
     "tr/translate_units.py (unit table / conversion -> gen/C06_Gen.v): Python ast, fail closed; every generated definition is "
     "also run against the implementation by the correspondence streams",
-    "hand model coq/C11/Model.v of the calculator state machine, _tr_vecs, mode back-transformation: tied by exact "
-    "correspondence with mock gradient methods (all atom subsets, both schemes, n_cores 1/2/4, serial branch in a child process)",
+    "hand model coq/C11/Model.v of the calculator state machine, _tr_vecs, mass weighting, mode back-transformation, the cache of "
+    "frequencies_proj: tied by exact correspondence with the implementation (all atom subsets, both schemes, n_cores 1/2/4, serial branch "
+    "in a child process; check_tr_vecs, check_proj_cols, check_modes, check_twice) and by 40 source pins",
+    "of the C06 development only coq/C06/Base.v (record type of a unit) and the generated coq/gen/C06_Gen.v are used",
     "oracles (modelled, not verified): numpy eigh / eigvalsh / qr / sqrt / cross, concurrent.futures process pool, pickle",
     "exact rationals stand for IEEE doubles up to rounding (1e-9 relative in correspondence; inputs are dyadic so the "
     "placement comparison is exact)",
@@ -50,7 +54,9 @@ ASSUMPTIONS = [
     "agreement of the numerical with the analytic Hessian 'to the accuracy of the scheme' is checked against bounds "
     "h*max|d3E| (forward) and h^2*max|d4E| (central) estimated from the analytic Hessian, on Morse/harmonic networks",
 ]
-RULE = ("streams: motion-oracle = Species.rotate / translate sequences (with and without frequency / mode queries in between) on a species "
+RULE = ("streams (round 3 additions: near-linear chains x all labellings; one Hessian object queried before and after the configured scale factor "
+        "changes; copy / deepcopy; stored values untouched by evaluation in all 5 units; Species API sequences incl. copies in all 5 units with and "
+        "without a functional; a gradient evaluation failing once followed by a second calculate(); n_cores > 3N; hybrid serial branch); motion-oracle = Species.rotate / translate sequences (with and without frequency / mode queries in between) on a species "
         "carrying its analytic Hessian; numerical-Hessian shifts also given in pm / nm / a0; reorder-oracle = Species.reorder_atoms on a species carrying its analytic Hessian, every permutation of 3-4 atoms "
         "(thorough: random non-involutive permutations up to 13 atoms); freq-oracle = generated molecules (2..15 atoms; linear / planar / general; mixed elements; minima and saddles of "
         "harmonic+Morse bond networks) x {rotations, translations, permutations, 5 storage units, scale factors}; numhess-oracle = "
@@ -60,7 +66,7 @@ RULE = ("streams: motion-oracle = Species.rotate / translate sequences (with and
         "_mass_weighted; a case is non-trivial when the transformation is not the identity / the subset is proper / an "
         "eigenvalue is negative; distinct by (molecule, transformation | subset, scheme, cores)")
 
-SLICE = ["lib/Sums.v", "lib/QcInst.v", "C06/Base.v", "C06/Model.v", "C06/Lemmas.v", "C06/Props.v", "gen/C06_Gen.v",
+SLICE = ["lib/Sums.v", "lib/QcInst.v", "C06/Base.v", "gen/C06_Gen.v",
          "C11/Base.v", "C11/Model.v", "C11/Lemmas.v", "C11/Units.v", "C11/Props.v", "C11/Corr.v", "gen/C11_Gen.v"]
 # Functions the HAND-WRITTEN model coq/C11/Model.v was written from and that tr/translate_c11.py neither regenerates nor
 # pins structurally (it regenerates / pins exactly: Hessian.n_tr, n_v, _mass_weighted, _freq_scale_factor,
@@ -85,6 +91,20 @@ PINS = [("autode/hessians.py", q) for q in (
     ("autode/atoms.py", "Atom.translate"),       # Model.displaced: the shift vector is ADDED to the coordinate
     ("autode/config.py", "_ConfigClass.__setattr__"),   # freq_scale_factor validated to (0, 1]: premise 0 <= scale
     ("autode/utils.py", "hashable"),             # a pool job is the bound method itself
+] + [
+    # transitive dependencies exercised by the oracle streams (object life cycle of a Hessian, Species API, entry points)
+    ("autode/hessians.py", "Hessian.__new__"), ("autode/hessians.py", "Hessian.__deepcopy__"), ("autode/hessians.py", "Hessian.copy"),
+    ("autode/hessians.py", "Hessian.frequencies"), ("autode/hessians.py", "Hessian.normal_modes"),
+    ("autode/hessians.py", "NumericalHessianCalculator._n_cores_pp"), ("autode/hessians.py", "NumericalHessianCalculator._validated"),
+    ("autode/atoms.py", "Atoms.moi"), ("autode/atoms.py", "Atoms.copy"), ("autode/geom.py", "get_rot_mat_euler"),
+    ("autode/species/species.py", "Species.hessian"), ("autode/species/species.py", "Species.frequencies"),
+    ("autode/species/species.py", "Species.vib_frequencies"), ("autode/species/species.py", "Species.imaginary_frequencies"),
+    ("autode/species/species.py", "Species.normal_mode"), ("autode/species/species.py", "Species.reorder_atoms"),
+    ("autode/species/species.py", "Species.rotate"), ("autode/species/species.py", "Species.translate"),
+    ("autode/species/species.py", "Species.calc_hessian"), ("autode/species/species.py", "Species.new_species"),
+    ("autode/species/species.py", "Species.copy"), ("autode/species/species.py", "Species.is_linear"),
+    ("autode/calculations/executors.py", "CalculationExecutorH.run"),
+    ("autode/values.py", "ValueArray.to"), ("autode/values.py", "ValueArray.__array_finalize__"),
 ]
 
 PRE = ("From Coq Require Import ZArith QArith Qcanon List String Bool.\nFrom AV.lib Require Import QcInst.\n"
@@ -177,6 +197,81 @@ class MockNet(_MockBase):
             H[3 * i:3 * i + 3, 3 * j:3 * j + 3] -= B
             H[3 * j:3 * j + 3, 3 * i:3 * i + 3] -= B
         return H
+
+
+class MockFlaky(MockNet):
+    """A bond network whose gradient evaluation FAILS ONCE: while the flag file exists, the evaluation at the chosen point
+    (`ref` = the undisplaced geometry, or the geometry whose flat coordinate `row` is displaced) removes the file and raises."""
+
+    def __init__(self, name, pairs, x0, fail_at, flag):
+        super().__init__(name, pairs)
+        self.x0, self.fail_at, self.flag = np.array(x0, dtype=float), fail_at, flag
+
+    def execute(self, calc):
+        x = np.array(calc.molecule.coordinates, dtype=float).flatten()
+        moved = np.nonzero(np.abs(x - self.x0) > 1e-12)[0]
+        here = "ref" if len(moved) == 0 else int(moved[0])
+        if here == self.fail_at and os.path.exists(self.flag):
+            os.remove(self.flag)
+            raise RuntimeError("mock gradient evaluation failed (once)")
+        super().execute(calc)
+
+
+def reference_fd(net, x, h, cdiff):
+    """the finite-difference matrix the calculator must produce, computed independently (raw rows, then symmetrised)"""
+    d = len(x)
+    raw = np.zeros((d, d))
+    g0 = net.grad(x)
+    for r in range(d):
+        e = np.zeros(d)
+        e[r] = h
+        raw[r] = (net.grad(x + e) - net.grad(x - e)) / (2 * h) if cdiff else (net.grad(x + e) - g0) / h
+    return raw, (raw + raw.T) / 2
+
+
+def fault_oracle(ctx, fail, n, symbols, X, hi, Hh, work):
+    """A gradient evaluation fails once, calculate() raises, the caller calls calculate() again on the same calculator:
+    the Hessian must then be the numerical Hessian (every row recorded as calculated holds its finite difference)."""
+    x = X.flatten()
+    h = 1e-3
+    for cdiff in (False, True):
+        bf, bc = fd_bounds(hi, x, h)
+        bound = bc if cdiff else bf
+        for fail_at in (["ref"] if not cdiff else []) + [0, 3 * n - 2]:
+            for nc in (1, 2):
+                flag = os.path.join(work, f"flaky-{n}-{int(cdiff)}-{fail_at}-{nc}.flag")
+                open(flag, "w").close()
+                net = MockFlaky("mockf", hi.pairs, x, fail_at, flag)
+                ctx.count("numhess-oracle", ("fault", n, cdiff, fail_at, nc), nontrivial=True,
+                          sample={"n_atoms": n, "central": cdiff, "gradient_failing_once": fail_at, "n_cores": nc})
+                ctx.hist("numhess-oracle", "fault:" + ("reference-gradient" if fail_at == "ref" else "displaced-gradient"))
+                rep = numhess_replay(symbols, X, [hi], scheme="central" if cdiff else "forward", shift=h, n_cores=nc, gradient_failing_once=fail_at)
+                mol = make_molecule(symbols, X)
+                c = NumericalHessianCalculator(mol, method=net, keywords=net.keywords.grad, do_c_diff=cdiff, shift=Distance(h, units="Å"), n_cores=nc)
+                raised = False
+                try:
+                    c.calculate()
+                except Exception:  # noqa
+                    raised = True
+                if os.path.exists(flag):
+                    os.remove(flag)
+                    ctx.hist("numhess-oracle", "fault:not-triggered")
+                    continue
+                try:
+                    if raised:
+                        c.calculate()
+                    Hn = np.array(c.hessian, dtype=float)
+                except Exception as e:  # noqa
+                    fail(f"NumericalHessianCalculator|exception:{type(e).__name__}", f"{n} atoms: calculate() after a failed gradient evaluation raised {type(e).__name__}: {str(e)[:150]}", rep)
+                    continue
+                dev = np.abs(Hn - Hh).max()
+                if dev > bound:
+                    zero_rows = [r for r in range(3 * n) if not np.any(np.array(c._hessian)[r]) and np.any(Hh[r])]
+                    key = "NumericalHessianCalculator|retry-after-failed-reference-gradient" if fail_at == "ref" else "NumericalHessianCalculator|row-marked-before-evaluated"
+                    fail(key, f"{n} atoms, {'central' if cdiff else 'forward'} differences, n_cores={nc}: the gradient evaluation at "
+                         f"{'the undisplaced geometry' if fail_at == 'ref' else 'the geometry with coordinate %d displaced' % fail_at} fails once, calculate() raises"
+                         f"{'' if raised else ' NOT'}, calculate() is called again and then the Hessian deviates from the analytic one by {dev:.3e} > {bound:.3e} "
+                         f"(_calculated_rows = {sorted(c._calculated_rows)}, rows never evaluated: {zero_rows})", rep)
 
 
 def make_molecule(symbols, coords, name="m"):
@@ -344,7 +439,7 @@ class Fails:
     """Collects property failures seen on the implementation; reports at most 2 per key and `limit` overall
     (occurrences of listed known findings do not use up the budget)."""
 
-    def __init__(self, ctx, limit=8):
+    def __init__(self, ctx, limit=16):
         self.ctx, self.n, self.limit, self.keys, self.reported = ctx, 0, limit, {}, 0
 
     def __call__(self, key, what, rep):
@@ -363,10 +458,10 @@ def mol_replay(symbols, X, H, **kw):
     return d
 
 
-def freq_case(ctx, fail, symbols, X, H, label, frames, check_units=True):
+def freq_case(ctx, fail, symbols, X, H, label, frames, check_units=True, true_linear=None):
     """All frequency / mode oracles for one molecule + Hessian (Ha/A^2); an exception of the implementation is a finding."""
     try:
-        return _freq_case(ctx, fail, symbols, X, H, label, frames, check_units)
+        return _freq_case(ctx, fail, symbols, X, H, label, frames, check_units, true_linear)
     except Exception as e:  # noqa
         Config.freq_scale_factor = None
         fail(f"Hessian|exception:{type(e).__name__}", f"{label}: frequencies / modes raised {type(e).__name__}: {str(e)[:200]}",
@@ -374,7 +469,7 @@ def freq_case(ctx, fail, symbols, X, H, label, frames, check_units=True):
         return 1
 
 
-def _freq_case(ctx, fail, symbols, X, H, label, frames, check_units=True):
+def _freq_case(ctx, fail, symbols, X, H, label, frames, check_units=True, true_linear=None):
     n0 = fail.n
     n = len(symbols)
     atoms = Atoms([Atom(s, *map(float, x)) for s, x in zip(symbols, X)])
@@ -393,9 +488,13 @@ def _freq_case(ctx, fail, symbols, X, H, label, frames, check_units=True):
     ctx.count("freq-oracle", (label, "base"), nontrivial=True, sample={"label": label, "n_atoms": n, "linear": linear})
     ctx.hist("freq-oracle", f"n={n}")
     ctx.hist("freq-oracle", "linear" if linear else "non-linear")
-    if ref_ntr != ntr:
-        ctx.hist("freq-oracle", "skipped:near-linear-rank-ambiguous")
-        return 0
+    # the geometric truth: the generator knows whether the points are exactly collinear; otherwise the rank of the
+    # mass-weighted translation/rotation vectors of the reference projector decides
+    want_linear = (ref_ntr == 5) if true_linear is None else bool(true_linear)
+    if linear != want_linear or ref_ntr != (5 if want_linear else 6):
+        fail("Atoms.are_linear|misclassified", f"{label}: the atoms are {'collinear' if want_linear else 'not collinear'} (rank of the translation/rotation "
+             f"space {ref_ntr}) but are_linear() = {linear}, n_tr = {hs.n_tr}", rep())
+        return fail.n - n0
     # count and zeros
     if len(f) != 3 * n or hs.n_tr != ntr or any(v != 0.0 for v in f[:ntr]):
         fail("Hessian.frequencies_proj|zero-count", f"{label}: {len(f)} frequencies, n_tr={hs.n_tr} (expected {ntr}), leading {f[:ntr].tolist()}", rep())
@@ -455,19 +554,26 @@ def _freq_case(ctx, fail, symbols, X, H, label, frames, check_units=True):
             fail("Hessian.frequencies_proj|frame-dependent", f"{label}: frequencies change under {fname}: {np.sort(f)[ntr:ntr + 4].tolist()} -> {np.sort(f2)[ntr:ntr + 4].tolist()} (n_tr {hs.n_tr} -> {h2.n_tr})",
                  rep(frame=fname, R=R.tolist(), t=list(map(float, t)), perm=list(perm)))
             continue
-        # mode equivariance for non-degenerate vibrations
+        # mode equivariance: cluster (near-)degenerate vibrations and compare the projectors onto each cluster
         full = np.kron(np.eye(n), R)
         idx = [3 * p + k for p in perm for k in range(3)]
-        for i in range(ntr, 3 * n):
-            lo = abs(f[i] - f[i - 1]) if i > ntr else np.inf
-            hi = abs(f[i + 1] - f[i]) if i + 1 < 3 * n else np.inf
-            if min(lo, hi) < 1e-3 * numax or abs(f[i]) < 1e-3 * numax:
-                ctx.hist("freq-oracle", "mode-equivariance-skipped(degenerate)")
-                continue
-            want = (full @ modes[i])[idx]
-            if abs(abs(want @ m2[i]) - 1.0) > 1e-6:
-                fail("Hessian.normal_modes_proj|frame-dependent", f"{label}: mode {i} does not transform with the molecule under {fname}: |overlap| = {abs(want @ m2[i])!r}",
-                     rep(frame=fname, R=R.tolist(), t=list(map(float, t)), perm=list(perm), mode=i))
+        clusters, cur = [], [ntr]
+        for i in range(ntr + 1, 3 * n):
+            if abs(f[i] - f[i - 1]) < 1e-3 * numax:
+                cur.append(i)
+            else:
+                clusters.append(cur)
+                cur = [i]
+        if ntr < 3 * n:
+            clusters.append(cur)
+        for cl in clusters:
+            A = np.array([(full @ modes[i])[idx] for i in cl]).T
+            B = np.array([m2[i] for i in cl]).T
+            ctx.hist("freq-oracle", "mode-cluster:" + ("degenerate" if len(cl) > 1 else "single"))
+            if np.abs(A @ A.T - B @ B.T).max() > 1e-5:
+                fail("Hessian.normal_modes_proj|frame-dependent", f"{label}: the modes {cl} do not transform with the molecule under {fname}: "
+                     f"projector deviation {np.abs(A @ A.T - B @ B.T).max():.2e}",
+                     rep(frame=fname, R=R.tolist(), t=list(map(float, t)), perm=list(perm), modes=cl))
                 break
     # storage units
     if check_units:
@@ -476,8 +582,19 @@ def _freq_case(ctx, fail, symbols, X, H, label, frames, check_units=True):
             stored = np.array(hs.to(u))
             h3 = Hessian(stored, atoms=atoms, units=u)
             ok, _ = spec_close(floats(h3.frequencies_proj), f, rel=1e-9)
+            _ = h3.normal_modes_proj
             if not ok:
                 fail("Hessian.frequencies_proj|unit-dependent", f"{label}: frequencies differ when the Hessian is stored in {u.name}", rep(unit=u.name))
+            if not np.array_equal(np.array(h3), stored) or h3.units != u:
+                fail("Hessian|stored-values-modified", f"{label}: evaluating frequencies / modes changed the stored Hessian (unit {u.name}): "
+                     f"max change {np.abs(np.array(h3) - stored).max():.3e}", rep(unit=u.name))
+            back = np.array(h3.to("Ha Å^-2"))
+            if np.abs(back - np.array(H)).max() > 1e-9 * max(1.0, np.abs(H).max()):
+                fail("Hessian|stored-values-modified", f"{label}: after evaluating frequencies the Hessian stored in {u.name} no longer converts back to the "
+                     f"original (max deviation {np.abs(back - np.array(H)).max():.3e} Ha/A^2)", rep(unit=u.name))
+            cp = h3.copy()
+            if cp.units != u or not spec_close(floats(cp.frequencies_proj), f, rel=1e-9)[0]:
+                fail("Hessian.copy|frequencies-changed", f"{label}: copy() of a Hessian stored in {u.name} has different frequencies", rep(unit=u.name))
         # scale factors
         for s in (0.5, 0.96, 1.0):
             ctx.count("freq-oracle", (label, "scale", s), nontrivial=(s != 1.0))
@@ -489,8 +606,29 @@ def _freq_case(ctx, fail, symbols, X, H, label, frames, check_units=True):
             if not spec_close(fs, s * f)[0]:
                 fail("Hessian._eigenvalues_to_freqs|scale-factor", f"{label}: Config.freq_scale_factor={s} does not multiply every frequency "
                      f"(max deviation {np.abs(np.sort(fs) - np.sort(s * f)).max():.3e})", rep(scale=s))
+        # one object, queried, then the configured factor changes: "the configured scale factor multiplies every frequency"
+        ctx.count("freq-oracle", (label, "scale-after-query"), nontrivial=True)
+        hq = Hessian(np.array(H), atoms=atoms, units="Ha Å^-2")
+        fq = floats(hq.frequencies_proj)
+        Config.freq_scale_factor = 0.5
+        try:
+            fq2 = floats(hq.frequencies_proj)
+        finally:
+            Config.freq_scale_factor = None
+        if not spec_close(fq2, 0.5 * fq)[0]:
+            fail("Hessian.frequencies_proj|scale-factor-cached", f"{label}: frequencies_proj was read, then Config.freq_scale_factor set to 0.5: the same object still "
+                 f"returns {np.sort(fq2)[-2:].tolist()} instead of {np.sort(0.5 * fq)[-2:].tolist()}", rep(scale=0.5))
         from autode.wrappers.keywords.functionals import pbe0
-        fs = floats(Hessian(np.array(H), atoms=atoms, units="Ha Å^-2", functional=pbe0).frequencies_proj)
+        hf = Hessian(np.array(H), atoms=atoms, units="Ha Å^-2", functional=pbe0)
+        fs = floats(hf.frequencies_proj)
+        fc = floats(hf.copy().frequencies_proj)
+        if not spec_close(fc, fs)[0]:
+            fail("Hessian.copy|functional-dropped", f"{label}: Hessian(functional=pbe0).copy() has frequencies {np.sort(fc)[-2:].tolist()}, the original "
+                 f"{np.sort(fs)[-2:].tolist()} (scale factor {pbe0.freq_scale_factor} lost)", rep())
+        import copy as _copy
+        fd_ = floats(_copy.deepcopy(hf).frequencies_proj)
+        if not spec_close(fd_, fs)[0]:
+            fail("Hessian.__deepcopy__|frequencies-changed", f"{label}: deepcopy of a Hessian with a functional has different frequencies", rep())
         if not spec_close(fs, pbe0.freq_scale_factor * f)[0]:
             fail("Hessian._freq_scale_factor|functional", f"{label}: the functional's scale factor {pbe0.freq_scale_factor} does not multiply every frequency", rep())
     return fail.n - n0
@@ -545,12 +683,14 @@ def oracle_frequencies(ctx, fail):
             pairs = gen_network(rng, X, stationary=True, saddle=(variant == "saddle"))
             H = MockNet("ref", pairs).hess(X.flatten())
             label = f"{shp}-{n}-{variant}-{''.join(symbols)}"
-            freq_case(ctx, fail, symbols, X, H, label, frames_for(rng, n, 2 if ctx.quick else 5), check_units=(full or n <= 6))
-        if n <= 6 and (full or ci % 3 == 0):
+            freq_case(ctx, fail, symbols, X, H, label, frames_for(rng, n, 2 if ctx.quick else 5), check_units=(full or n <= 8),
+                      true_linear=(shp == "linear"))
+        if n <= 6 and (full or ci % 3 == 0 or shp == "linear"):
             # a non-stationary geometry: rotations are not null vectors of H, projection still frame-independent
             pairs = gen_network(rng, X, stationary=False)
             H = MockNet("ref", pairs).hess(X.flatten())
-            freq_case(ctx, fail, symbols, X, H, f"{shp}-{n}-offmin-{''.join(symbols)}", frames_for(rng, n, 1), check_units=False)
+            freq_case(ctx, fail, symbols, X, H, f"{shp}-{n}-offmin-{''.join(symbols)}", frames_for(rng, n, 1), check_units=False,
+                      true_linear=(shp == "linear"))
     # axis-aligned linear molecules (rotation vector about the molecular axis vanishes)
     for ax in range(3):
         for n in (2, 3, 4):
@@ -558,26 +698,77 @@ def oracle_frequencies(ctx, fail):
             X[:, ax] = np.cumsum([0.0] + [1.1 + 0.1 * k for k in range(n - 1)])
             symbols = (["O", "C", "O", "S"] if n != 2 else ["H", "F"])[:n]
             H = MockNet("ref", gen_network(rng, X, stationary=True)).hess(X.flatten())
-            freq_case(ctx, fail, symbols, X, H, f"linear-axis{ax}-{n}", frames_for(rng, n, 1), check_units=False)
+            freq_case(ctx, fail, symbols, X, H, f"linear-axis{ax}-{n}", frames_for(rng, n, 1), check_units=False, true_linear=True)
+    oracle_nearlinear(ctx, fail)
+
+
+def oracle_nearlinear(ctx, fail):
+    """Nearly linear chains (bent by a fraction of / a few degrees at an inner atom) with an off-minimum harmonic network:
+    whatever the package decides about linearity, n_tr and the frequencies must not depend on the labelling."""
+    rng = ctx.rng
+    for n in (3, 4):
+        for dev in (0.4, 1.5, 3.0):
+            a = math.radians(180.0 - dev)
+            X = np.zeros((n, 3))
+            X[0] = [1.2, 0.0, 0.0]
+            X[2] = [1.3 * math.cos(a), 1.3 * math.sin(a), 0.0]
+            if n == 4:
+                X[3] = X[2] + 1.1 * (X[2] - X[1]) / np.linalg.norm(X[2] - X[1])
+            symbols = ["O", "C", "S", "H"][:n]
+            pairs = [(i, j, "h", 1.0 / (1 + abs(i - j)), 0.0, 0.93 * float(np.linalg.norm(X[i] - X[j]))) for i, j in itertools.combinations(range(n), 2)]
+            H = MockNet("ref", pairs).hess(X.flatten())
+            seen = {}
+            for perm in itertools.permutations(range(n)):
+                if n == 4 and rng.random() < 0.5 and ctx.quick:
+                    continue
+                perm = list(perm)
+                X2, H2 = transform(X, H, np.eye(3), np.zeros(3), perm)
+                at = Atoms([Atom(symbols[p], *map(float, x)) for p, x in zip(perm, X2)])
+                ctx.count("freq-oracle", ("near-linear", n, dev, tuple(perm)), nontrivial=True)
+                ctx.hist("freq-oracle", f"near-linear:{dev}deg")
+                try:
+                    hh = Hessian(H2, atoms=at, units="Ha Å^-2")
+                    seen[tuple(perm)] = (hh.n_tr, floats(hh.frequencies_proj))
+                except Exception as e:  # noqa
+                    fail(f"Hessian|exception:{type(e).__name__}", f"near-linear {n} atoms bent {dev} deg, labelling {perm}: {type(e).__name__}: {str(e)[:150]}",
+                         mol_replay(symbols, X, H, kind="freq-case", label=f"near-linear-{n}-{dev}", R=np.eye(3).tolist(), t=[0, 0, 0], perm=perm))
+            if not seen:
+                continue
+            p0 = sorted(seen)[0]
+            want_ntr = 5 if dev < 1.0 else 6        # documented default tolerance of are_linear: 1 degree
+            if seen[p0][0] != want_ntr:
+                fail("Atoms.are_linear|tolerance", f"{n} atoms bent by {dev} deg at an inner atom (documented linearity tolerance 1 deg): n_tr = {seen[p0][0]}, expected {want_ntr}",
+                     mol_replay(symbols, X, H, kind="nearlinear-case", label=f"near-linear-{n}-{dev}", perm_a=list(p0), perm_b=list(p0), want_ntr=want_ntr))
+            for pm, (ntr_, fr) in sorted(seen.items()):
+                if ntr_ != seen[p0][0] or not spec_close(fr, seen[p0][1])[0]:
+                    fail("Atoms.are_linear|near-linear-labelling-dependent", f"{n} atoms bent by {dev} deg at an inner atom: labelling {list(p0)} gives n_tr = {seen[p0][0]}, "
+                         f"frequencies {np.round(np.sort(seen[p0][1])[-4:], 2).tolist()}; labelling {list(pm)} gives n_tr = {ntr_}, {np.round(np.sort(fr)[-4:], 2).tolist()}",
+                         mol_replay(symbols, X, H, kind="nearlinear-case", label=f"near-linear-{n}-{dev}", perm_a=list(p0), perm_b=list(pm)))
+                    break
 
 
 
 # ============================================================================================ oracle A2: relabelling through the public API
-def reorder_case(ctx, fail, symbols, X, pairs, mapping, label):
+def reorder_case(ctx, fail, symbols, X, pairs, mapping, label, unit="Ha Å^-2", functional=False):
     """Species.reorder_atoms(mapping) on a species carrying its analytic Hessian: the Hessian must be the analytic
     Hessian of the relabelled system, frequencies unchanged, every projected mode the relabelled original."""
     n = len(symbols)
     rep = {"kind": "reorder-case", "symbols": list(symbols), "coords": np.asarray(X).tolist(), "pairs": [list(p) for p in pairs],
-           "mapping": {str(k): int(v) for k, v in mapping.items()}, "label": label}
+           "mapping": {str(k): int(v) for k, v in mapping.items()}, "label": label, "unit": unit, "functional": bool(functional)}
     try:
+        from autode.wrappers.keywords.functionals import pbe0
+        fun = pbe0 if functional else None
         H = MockNet("ref", pairs).hess(np.asarray(X).flatten())
+
+        def stored(at):
+            return Hessian(np.array(Hessian(H.copy(), units="Ha Å^-2").to(unit)), atoms=at, units=unit, functional=fun)
         ref = make_molecule(symbols, X)
-        ref.hessian = Hessian(H.copy(), atoms=ref.atoms, units="Ha Å^-2")
+        ref.hessian = stored(ref.atoms)
         f0 = floats(ref.frequencies)
         fp0 = floats(ref.hessian.frequencies_proj)
         m0 = [np.array(mo, dtype=float).flatten() for mo in ref.hessian.normal_modes_proj]
         mol = make_molecule(symbols, X)
-        mol.hessian = Hessian(H.copy(), atoms=mol.atoms, units="Ha Å^-2")
+        mol.hessian = stored(mol.atoms)
         mol.reorder_atoms(mapping=dict(mapping))
         order = sorted(mapping, key=lambda k: mapping[k])          # new position p holds old atom order[p]
         X2 = np.array(mol.coordinates, dtype=float)
@@ -587,7 +778,10 @@ def reorder_case(ctx, fail, symbols, X, pairs, mapping, label):
             return
         pairs2 = [(mapping[i], mapping[j], k, p1, p2, r0) for (i, j, k, p1, p2, r0) in pairs]
         H2 = MockNet("ref", pairs2).hess(X2.flatten())
-        Hs = np.array(mol.hessian, dtype=float)
+        if mol.hessian.units != unit:
+            fail("Species.reorder_atoms|hessian-units-changed", f"{label}: after reorder_atoms the Hessian's unit is {mol.hessian.units.name}, was {unit}", rep)
+            return
+        Hs = np.array(mol.hessian.to("Ha Å^-2"), dtype=float)
         dev = np.abs(Hs - H2).max()
         if dev > 1e-8:
             r, c = np.unravel_index(int(np.argmax(np.abs(Hs - H2))), Hs.shape)
@@ -629,7 +823,9 @@ def oracle_reorder(ctx, fail):
             invol = all(image[image[i]] == i for i in range(n))
             ctx.count("reorder-oracle", (n, image), nontrivial=not invol, sample={"n_atoms": n, "mapping": list(image)})
             ctx.hist("reorder-oracle", f"n={n}:" + ("self-inverse" if invol else "not-self-inverse"))
-            reorder_case(ctx, fail, symbols, X, pairs, mapping, f"reorder-{n}-{''.join(symbols)}")
+            units = [u.name for u in Hessian.implemented_units]
+            k = sum(image) + len(image) * image[0]
+            reorder_case(ctx, fail, symbols, X, pairs, mapping, f"reorder-{n}-{''.join(symbols)}", unit=units[k % len(units)], functional=(k % 2 == 1))
     if not ctx.quick:
         for n in (5, 6, 8, 10, 13):
             X = gen_geometry(rng, n, "general")
@@ -657,7 +853,7 @@ def kabsch(P, Q):
     return R, float(np.abs(Pc @ R.T - Qc).max())
 
 
-def motion_case(ctx, fail, symbols, X, pairs, steps, label):
+def motion_case(ctx, fail, symbols, X, pairs, steps, label, unit="Ha Å^-2", functional=False):
     """A species carrying its analytic Hessian is moved with Species.rotate / translate; `steps` is a list of
     ("q",) (query frequencies and all modes), ("r", axis, theta, origin) or ("t", vec).  After every motion that is
     followed by a query (and at the end) the Hessian, frequencies and modes must be those of the CURRENT frame."""
@@ -665,31 +861,61 @@ def motion_case(ctx, fail, symbols, X, pairs, steps, label):
     X = np.asarray(X, dtype=float)
     rep = {"kind": "motion-case", "symbols": list(symbols), "coords": X.tolist(), "pairs": [list(p) for p in pairs],
            "steps": [[st[0]] + [np.asarray(a, dtype=float).tolist() if not np.isscalar(a) and a is not None else a for a in st[1:]] for st in steps],
-           "label": label}
+           "label": label, "unit": unit, "functional": bool(functional)}
     try:
+        from autode.wrappers.keywords.functionals import pbe0
+        fun = pbe0 if functional else None
         H0 = MockNet("ref", pairs).hess(X.flatten())
+
+        def stored(at):
+            return Hessian(np.array(Hessian(H0.copy(), units="Ha Å^-2").to(unit)), atoms=at, units=unit, functional=fun)
         ref = make_molecule(symbols, X)
-        ref.hessian = Hessian(H0.copy(), atoms=ref.atoms, units="Ha Å^-2")
+        ref.hessian = stored(ref.atoms)
         f0 = floats(ref.frequencies)
         m0 = [np.array(ref.normal_mode(i), dtype=float).flatten() for i in range(3 * n)]
         ntr = ref.hessian.n_tr
         numax = max(1.0, float(np.abs(f0).max()))
-        mol = make_molecule(symbols, X)
-        mol.hessian = Hessian(H0.copy(), atoms=mol.atoms, units="Ha Å^-2")
+        plain, _, _, _ = ref_freqs(H0, ref.atoms, scale=(pbe0.freq_scale_factor if functional else 1.0))
+        if not spec_close(f0[ntr:], plain)[0]:
+            fail("Species.frequencies|unit-or-functional", f"{label}: frequencies of a species whose Hessian is stored in {unit}"
+                 f"{' with a functional' if functional else ''} differ from the reference spectrum", rep)
+            return
+        main_mol = make_molecule(symbols, X)
+        main_mol.hessian = stored(main_mol.atoms)
+        mol = main_mol
+        copies = []
 
-        def check(done):
+        def check(done, mol=None, what="species"):
+            mol = main_mol if mol is None else mol
             Xc = np.array(mol.coordinates, dtype=float)
             R, res = kabsch(X, Xc)
-            tag = f"{label} after {done}"
+            tag = f"{label} [{what}, Hessian in {unit}] after {done}"
             if res > 1e-9:
                 fail("Species.rotate|not-rigid", f"{tag}: coordinates are not a rigid image of the original (residual {res:.2e})", rep)
                 return False
             full = np.kron(np.eye(n), R)
-            Hc = np.array(mol.hessian, dtype=float)
+            if mol.hessian.units != unit:
+                fail("Species.rotate|hessian-units-changed", f"{tag}: the Hessian's unit is now {mol.hessian.units.name}", rep)
+                return False
+            Hc = np.array(mol.hessian.to("Ha Å^-2"), dtype=float)
             if np.abs(Hc - full @ H0 @ full.T).max() > 1e-8:
                 fail("Species.rotate|hessian-not-rotated", f"{tag}: the stored Hessian is not R H R^T (max deviation {np.abs(Hc - full @ H0 @ full.T).max():.3e})", rep)
                 return False
+            ha = np.array([a.coord for a in mol.hessian.atoms], dtype=float) if mol.hessian.atoms is not None else None
+            # (a common translation of the frame atoms is immaterial: projection and modes are translation invariant)
+            if ha is None or np.abs((ha - Xc) - (ha - Xc)[0]).max() > 1e-9:
+                fail("Species.hessian|atoms-of-another-geometry", f"{tag}: the atoms the Hessian projects with are not a translate of the species' atoms "
+                     f"(max difference {('no atoms' if ha is None else format(np.abs((ha - Xc) - (ha - Xc)[0]).max(), '.3e'))})", rep)
+                return False
             f1 = floats(mol.frequencies)
+            vf = mol.vib_frequencies
+            if vf is None or not np.array_equal(floats(vf), f1[ntr:]):
+                fail("Species.vib_frequencies|count", f"{tag}: vib_frequencies has {None if vf is None else len(vf)} entries, frequencies[{ntr}:] has {len(f1) - ntr}", rep)
+                return False
+            im = mol.imaginary_frequencies
+            if (0 if im is None else len(im)) != int((f1 < 0).sum()):
+                fail("Species.imaginary_frequencies|count", f"{tag}: {0 if im is None else len(im)} imaginary frequencies reported, {int((f1 < 0).sum())} negative", rep)
+                return False
             if not spec_close(f1, f0)[0]:
                 fail("Species.frequencies|changed-by-rigid-motion", f"{tag}: frequencies changed: {np.sort(f0)[-3:].tolist()} -> {np.sort(f1)[-3:].tolist()}", rep)
                 return False
@@ -713,7 +939,7 @@ def motion_case(ctx, fail, symbols, X, pairs, steps, label):
                 F = (Hc * EH_J / 1e-20) / np.sqrt(np.outer(mk, mk))
                 for i in range(ntr, 3 * n):
                     ray = m1[i] @ F @ m1[i]
-                    nu = np.sign(ray) * math.sqrt(abs(ray)) / (2 * math.pi * C_CM)
+                    nu = np.sign(ray) * math.sqrt(abs(ray)) / (2 * math.pi * C_CM) * (pbe0.freq_scale_factor if functional else 1.0)
                     if abs(nu - f1[i]) > 1e-6 * max(abs(f1[i]), 1.0) + 2e-7 * numax:
                         fail("Species.normal_mode|not-eigenvector-of-current-hessian", f"{tag}: mode {i} has Rayleigh wavenumber {float(nu)!r} in the current "
                              f"frame but frequency {float(f1[i])!r}", rep)
@@ -738,6 +964,9 @@ def motion_case(ctx, fail, symbols, X, pairs, steps, label):
                 else:
                     _ = mol.frequencies, [mol.normal_mode(i) for i in range(3 * n)]
                 done.append("query")
+            elif st[0] == "c":
+                copies.append((mol.copy(), "; ".join(done) or "start"))
+                done.append("copy")
             elif st[0] == "r":
                 mol.rotate(axis=np.array(st[1], dtype=float), theta=float(st[2]), origin=None if st[3] is None else np.array(st[3], dtype=float))
                 done.append(f"rotate(axis={list(st[1])}, theta={st[2]}, origin={None if st[3] is None else list(st[3])})")
@@ -746,7 +975,11 @@ def motion_case(ctx, fail, symbols, X, pairs, steps, label):
                 mol.translate(vec=np.array(st[1], dtype=float))
                 done.append(f"translate({list(st[1])})")
                 moved = True
-        check("; ".join(done))
+        if not check("; ".join(done)):
+            return
+        for k, (cp, when) in enumerate(copies):      # a copy must be unaffected by what happened to the original afterwards
+            if not check("; ".join(done), mol=cp, what=f"copy taken after [{when}]"):
+                return
     except Exception as e:  # noqa
         fail(f"Species.rotate|exception:{type(e).__name__}", f"{label}: the motion sequence raised {type(e).__name__}: {str(e)[:200]}", rep)
 
@@ -764,7 +997,7 @@ def oracle_motions(ctx, fail):
     def tr():
         return ("t", [rng.randint(-24, 24) / 8 for _ in range(3)])
 
-    plans = [(3, "general", False), (4, "general", True), (5, "planar", False)] + ([] if ctx.quick else [(6, "general", True), (8, "general", False), (4, "planar", True)])
+    plans = [(3, "general", False), (3, "linear", False), (4, "general", True), (5, "planar", False)] + ([] if ctx.quick else [(4, "linear", False)]) + ([] if ctx.quick else [(6, "general", True), (8, "general", False), (4, "planar", True)])
     for (n, shp, saddle) in plans:
         X = gen_geometry(rng, n, shp)
         symbols = rng.sample(ELEMENTS, n)
@@ -776,15 +1009,20 @@ def oracle_motions(ctx, fail):
             "rotate,translate,rotate(no queries)": [rot(), tr(), rot()],
             "rotate,query,translate,rotate": [rot(), ("q",), tr(), rot()],
             "query,rotate,rotate,translate": [("q",), rot(), rot(), tr()],
+            "copy,rotate": [("c",), rot()],
+            "query,copy,rotate,translate,copy,rotate": [("q",), ("c",), rot(), tr(), ("c",), rot()],
         }
         if not ctx.quick:
             for k in range(4):
-                seqs[f"random{k}"] = [rng.choice([("q",), rot(), tr(), rot()]) for _ in range(rng.randint(3, 7))]
-        for name, steps in seqs.items():
-            ctx.count("motion-oracle", (n, shp, name, repr(steps)), nontrivial=any(st[0] == "r" for st in steps),
-                      sample={"n_atoms": n, "sequence": name})
+                seqs[f"random{k}"] = [rng.choice([("q",), ("c",), rot(), tr(), rot()]) for _ in range(rng.randint(3, 7))]
+        units = [u.name for u in Hessian.implemented_units]
+        for k, (name, steps) in enumerate(seqs.items()):
+            unit = units[(k + n) % len(units)]
+            ctx.count("motion-oracle", (n, shp, name, repr(steps), unit), nontrivial=any(st[0] == "r" for st in steps),
+                      sample={"n_atoms": n, "sequence": name, "unit": unit})
             ctx.hist("motion-oracle", name if not name.startswith("random") else "random")
-            motion_case(ctx, fail, symbols, X, pairs, steps, f"motion-{n}-{''.join(symbols)}[{name}]")
+            ctx.hist("motion-oracle", "unit:" + unit)
+            motion_case(ctx, fail, symbols, X, pairs, steps, f"motion-{n}-{''.join(symbols)}[{name}]", unit=unit, functional=(k % 2 == 1))
 
 # ============================================================================================ oracle B: numerical Hessians
 def fd_bounds(net, x, h):
@@ -865,7 +1103,7 @@ def oracle_numhess(ctx, fail):
             errs = {}
             for cdiff in (False, True):
                 bound = bc if cdiff else bf
-                variants = [(1, False), (2, False), (4, False), (1, True)]
+                variants = [(1, False), (2, False), (4, False), (1, True)] + ([(8 * n, False)] if n == 2 or not ctx.quick else [])
                 for (nc, child) in variants:
                     tag = "serial-child" if child else f"cores{nc}"
                     ctx.count("numhess-oracle", (n, h, cdiff, tag), nontrivial=True,
@@ -881,6 +1119,10 @@ def oracle_numhess(ctx, fail):
                         fail("NumericalHessianCalculator|rows-recorded", f"{n} atoms {tag}: _calculated_rows = {rows}", rep)
                     e_raw = np.abs(raw - Hh).max()
                     errs[(cdiff, tag)] = e_raw
+                    ref_raw, ref_sym = reference_fd(hi, x, h, cdiff)
+                    if np.abs(raw - ref_raw).max() > 1e-7 or np.abs(sym - ref_sym).max() > 1e-7:
+                        fail("NumericalHessianCalculator|not-the-finite-difference", f"{n} atoms, {'central' if cdiff else 'forward'}, h={h}, {tag}: the rows differ from "
+                             f"the {'central' if cdiff else 'forward'} differences of the gradient by {np.abs(raw - ref_raw).max():.3e}", rep)
                     if e_raw > bound:
                         r = int(np.argmax(np.abs(raw - Hh).max(axis=1)))
                         fail("NumericalHessianCalculator|row-values", f"{n} atoms, {'central' if cdiff else 'forward'} differences, h={h}, {tag}: raw row {r} "
@@ -892,6 +1134,8 @@ def oracle_numhess(ctx, fail):
             if errs[(True, "cores1")] >= errs[(False, "cores1")] and errs[(False, "cores1")] != float("inf"):
                 fail("NumericalHessianCalculator|central-not-more-accurate", f"{n} atoms: central differences error {errs[(True, 'cores1')]:.3e} >= forward {errs[(False, 'cores1')]:.3e}",
                      numhess_replay(symbols, X, [hi], shift=h))
+            if n <= 3:
+                fault_oracle(ctx, fail, n, symbols, X, hi, Hh, ctx.work)
             # the shift given as a Distance in another unit (0.1 pm = 1e-4 nm = 1e-3 A; 0.002 a0)
             if n <= 3:
                 shift_units_oracle(ctx, fail, n, symbols, X, x, lo, hi, Hl, Hh)
@@ -904,7 +1148,10 @@ def oracle_numhess(ctx, fail):
                               sample={"n_atoms": n, "hybrid_idxs": list(sub), "n_cores": nc})
                     ctx.hist("numhess-oracle", f"hybrid:|idxs|={len(sub)}")
                     rep = numhess_replay(symbols, X, [lo, hi], hybrid_idxs=list(sub), shift=h, n_cores=nc)
-                    res = safe_calc(fail, ("hybrid", symbols, X, [lo, hi], sub, False, h, nc), rep, f"{n} atoms, hybrid idxs={sub}, n_cores={nc}")
+                    in_child = (si == 1 and nc == cores[0])          # the serial branch (calculate() inside a worker process)
+                    if in_child:
+                        ctx.hist("numhess-oracle", "hybrid:serial-child")
+                    res = safe_calc(fail, ("hybrid", symbols, X, [lo, hi], sub, False, h, nc), rep, f"{n} atoms, hybrid idxs={sub}, n_cores={nc}", in_child=in_child)
                     if res is None or res == "ValueError":
                         if res == "ValueError":
                             fail("HybridHessianCalculator|valid-idxs-rejected", f"{n} atoms: idxs={sub} rejected with ValueError", rep)
@@ -965,6 +1212,23 @@ def entry_points(ctx, fail, n, symbols, X, x, hi, Hh):
             fail("Species.calc_hessian|numerical", f"{n} atoms: Species.calc_hessian(numerical) deviates from the analytic Hessian by {np.abs(Hs - Hh).max():.3e}", rep)
         if mol.hessian.atoms is None or [float(v) for v in mol.frequencies] != [float(v) for v in mol.hessian.frequencies_proj]:
             fail("Species.frequencies|not-projected", f"{n} atoms: Species.frequencies differs from hessian.frequencies_proj", rep)
+        # forward differences with a plain float shift, requested as an ANALYTIC Hessian from a method that has none
+        mol3 = make_molecule(symbols, X)
+        ctx.count("numhess-oracle", ("calc_hessian-override", n), nontrivial=True)
+        mol3.calc_hessian(method=hi, numerical=False, coordinate_shift=1e-3, n_cores=1)
+        _, ref_sym = reference_fd(hi, x, 1e-3, False)
+        Hs3 = np.array(mol3.hessian, dtype=float)
+        if np.abs(Hs3 - ref_sym).max() > 1e-7:
+            fail("Species.calc_hessian|not-the-finite-difference", f"{n} atoms: calc_hessian(method without Hessians, coordinate_shift=1e-3 as float) differs from the "
+                 f"forward differences with h = 1e-3 A by {np.abs(Hs3 - ref_sym).max():.3e}", numhess_replay(symbols, X, [hi], entry="Species.calc_hessian", shift=1e-3))
+        # a Hessian handed over without atoms gets the species' atoms
+        mol4 = make_molecule(symbols, X)
+        mol4.hessian = Hessian(Hh.copy(), units="Ha Å^-2")
+        ctx.count("numhess-oracle", ("hessian-setter-no-atoms", n), nontrivial=True)
+        f4 = floats(mol4.frequencies)
+        fr4, ntr4, _, _ = ref_freqs(Hh, mol4.atoms)
+        if not spec_close(f4[len(f4) - len(fr4):], fr4)[0]:
+            fail("Species.hessian|atoms-not-attached", f"{n} atoms: frequencies of a species given a Hessian without atoms differ from the reference", rep)
         from autode.calculations import Calculation
         from autode.wrappers.keywords import HessianKeywords
         mol2 = make_molecule(symbols, X)
@@ -973,6 +1237,10 @@ def entry_points(ctx, fail, n, symbols, X, x, hi, Hh):
         calc.run()
         Hs = np.array(mol2.hessian, dtype=float)
         bf2, _ = fd_bounds(hi, x, 2e-3)
+        _, ref_sym2 = reference_fd(hi, x, 2e-3, False)
+        if np.abs(Hs - ref_sym2).max() > 1e-7:
+            fail("CalculationExecutorH|not-the-documented-scheme", f"{n} atoms: the executor's Hessian differs from forward differences with h = 2e-3 A by "
+                 f"{np.abs(Hs - ref_sym2).max():.3e}", numhess_replay(symbols, X, [hi], entry="Calculation(HessianKeywords)", shift=2e-3))
         if np.abs(Hs - Hh).max() > bf2 or not np.array_equal(Hs, Hs.T):
             fail("CalculationExecutorH|numerical", f"{n} atoms: Hessian calculation with a gradient-only method deviates from the analytic Hessian by {np.abs(Hs - Hh).max():.3e}",
                  numhess_replay(symbols, X, [hi], entry="Calculation(HessianKeywords) with a method that implements no Hessian"))
@@ -1109,6 +1377,44 @@ def correspondence_terms(ctx, fail):
                 f"{qc_list([float(l) for l in lam])} {qc_list(fr)}",
                 {"kind": "frequencies_proj", "symbols": symbols, "coords": X.tolist(), "config_scale": cfg, "functional": fn},
                 ("freqsproj", n, shp, cfg, fn), nontrivial=bool((lam < 0).any()) or cfg is not None or fn is not None)
+        # one object accessed twice while the configured scale factor changes (cached_property)
+        hq = Hessian(H.copy(), atoms=atoms, units="Ha Å^-2")
+        np.random.seed(ctx.seed + 19)
+        ntr = hq.n_tr
+        lam = np.linalg.eigvalsh(hq._proj_mass_weighted[ntr:, ntr:])
+        Config.freq_scale_factor = 0.75
+        try:
+            r1 = [float(v) for v in hq.frequencies_proj]
+            Config.freq_scale_factor = 0.5
+            r2 = [float(v) for v in hq.frequencies_proj]
+        finally:
+            Config.freq_scale_factor = None
+        sqt = coq_list([f"({qc(abs(float(l)))}, {qc(float(np.sqrt(abs(float(l)))))})" for l in lam])
+        add(f"check_twice {sqt} {qc(math.pi)} {qc(0.75)} {qc(0.5)} {coq_nat(n)} {coq_bool(lin)} {qc_list([float(l) for l in lam])} {qc_list(r1)} {qc_list(r2)}",
+            {"kind": "frequencies_proj-twice", "symbols": symbols, "coords": X.tolist(), "scales": [0.75, 0.5]}, ("twice", n, shp))
+        if n <= 3:
+            # normal_modes_proj from the implementation's own D (qr) and S_bar (eigh); _proj_matrix columns 0..2
+            hm = Hessian(H.copy(), atoms=atoms, units="Ha Å^-2")
+            np.random.seed(ctx.seed + 23)
+            ts2 = [np.array(t, dtype=float) for t in hm._tr_vecs()]     # same random state -> the axes _proj_matrix will use
+            np.random.seed(ctx.seed + 23)
+            D = np.array(hm._proj_matrix, dtype=float)
+            ntr = hm.n_tr
+            _, Sbar = np.linalg.eigh(hm._proj_mass_weighted[ntr:, ntr:])
+            d = 3 * n
+            Sp = np.zeros((d, d))
+            Sp[ntr:, ntr:] = Sbar
+            norms = [float(np.linalg.norm(D @ Sp[:, i])) for i in range(d)]
+            modes = [np.array(mo, dtype=float).flatten().tolist() for mo in hm.normal_modes_proj]
+            heavy.append(len(terms))
+            add(f"check_modes {coq_nat(d)} {coq_nat(ntr)} {qc_mat(D.tolist())} {qc_mat(Sbar.tolist())} {qc_list(norms)} {qc_mat(modes)}",
+                {"kind": "normal_modes_proj", "symbols": symbols, "coords": X.tolist()}, ("modes", n, shp))
+            sqm = [float(np.sqrt(m_)) for m_ in masses]
+            mwv = [np.repeat(np.sqrt(masses), 3) * np.tile(ts2[k][:3], n) for k in range(3)]
+            nrm = [float(np.linalg.norm(v)) for v in mwv]
+            add(f"check_proj_cols {coq_nat(n)} {qc_list(masses)} {qc_list(sqm)} {qc_list(ts2[0][:3].tolist())} {qc_list(ts2[1][:3].tolist())} "
+                f"{qc_list(ts2[2][:3].tolist())} {qc_list(nrm)} {qc_mat([D[:, k].tolist() for k in range(3)])}",
+                {"kind": "_proj_matrix-columns", "symbols": symbols, "coords": X.tolist()}, ("projcols", n, shp))
         if n <= 3:
             units = list(Hessian.implemented_units)
             if ctx.quick and n == 3:
@@ -1154,7 +1460,16 @@ def correspondence_terms(ctx, fail):
 
 
 def correspondence_eval(ctx, terms, descr):
-    bad, err = ctx.coq_bad_indices(PRE, terms, per_file=5, name="c11cases", timeout=900)
+    """Coq evaluates the model.  A coqc ERROR (not a disagreement) can be caused by another process rebuilding the shared
+    .vo files at that moment: rebuild under the lock and evaluate again before believing it."""
+    import time
+    for attempt in range(3):
+        bad, err = ctx.coq_bad_indices(PRE, terms, per_file=5, name=f"c11cases{attempt}", timeout=900)
+        if not err:
+            break
+        ctx.log(f"correspondence: coqc error on attempt {attempt + 1}: {err.strip()[:200]}")
+        time.sleep(5 + 10 * attempt)
+        ctx.coq_make(["C11/Props.vo", "C11/Corr.vo"])
     return [(descr[i], terms[i]) for i in bad], err
 
 
@@ -1187,7 +1502,30 @@ def _run(ctx, full):
     info = {"hygiene": [], "log_tail": out1 + out2, "build_ok": False}
     proofs_ok = False
     if translated:
-        proofs_ok, info = ctx.proofs(SLICE, "C11/Props.v", "AV.C11.Props", extra_targets=["C11/Corr.vo"])
+        import time
+
+        def gen_sha():
+            return hashlib.sha256(open(f"{VERIF}/coq/gen/C11_Gen.v", "rb").read() + open(f"{VERIF}/coq/gen/C06_Gen.v", "rb").read()).hexdigest()
+        for attempt in range(3):
+            sha0 = gen_sha()
+            ob, di = ctx.cov["obligations"], ctx.cov["discharged"]
+            proofs_ok, info = ctx.proofs(SLICE, "C11/Props.v", "AV.C11.Props", extra_targets=["C11/Corr.vo"])
+            # the generated files are shared: if another check (other VERIF_REPO) rewrote them meanwhile, or a library is
+            # being rebuilt by another process, regenerate and build again before believing a failure
+            sh(["python3", f"{VERIF}/tr/translate_units.py"], timeout=120)
+            sh(["python3", f"{VERIF}/tr/translate_c11.py"], timeout=120)
+            raced = gen_sha() != sha0
+            infra = (not proofs_ok) and not info["hygiene"] and re.search(r"premature end of file|inconsistent assumptions|C06/|bad version|Cannot find a physical path|lib/",
+                                                                        info.get("log_tail", ""))
+            if proofs_ok and not raced:
+                break
+            if attempt < 2 and (raced or infra):
+                ctx.log(f"proofs: attempt {attempt + 1} hit a shared-build race ({'generated file rewritten' if raced else 'library being rebuilt'}); retrying")
+                ctx.cov["obligations"], ctx.cov["discharged"] = ob, di
+                ctx.cov["theorems"] = []
+                time.sleep(10 + 15 * attempt)
+                continue
+            break
         ctx.log("proofs:", "ok" if proofs_ok else "BROKEN")
         ctx.cov["print_assumptions"] = info.get("assumptions", {})
         if proofs_ok and full:
@@ -1258,19 +1596,39 @@ def replay(ctx, obj):
         if "R" in rep:
             frames.append((rep.get("frame", "stored"), np.array(rep["R"]), np.array(rep["t"]), list(rep["perm"])))
         freq_case(ctx, fail, sy, X, H, rep.get("label", "replay"), frames, check_units=True)
+    elif kind == "nearlinear-case":
+        X, H, sy = np.array(rep["coords"]), np.array(rep["hessian_ha_per_ang2"]), rep["symbols"]
+        out = []
+        for pm in (rep["perm_a"], rep["perm_b"]):
+            X2, H2 = transform(X, H, np.eye(3), np.zeros(3), pm)
+            hh = Hessian(H2, atoms=Atoms([Atom(sy[p], *map(float, x)) for p, x in zip(pm, X2)]), units="Ha Å^-2")
+            out.append((hh.n_tr, floats(hh.frequencies_proj)))
+            print("replay: labelling", pm, "n_tr", out[-1][0], "frequencies", np.round(out[-1][1], 2).tolist())
+        if out[0][0] != out[1][0] or not spec_close(out[0][1], out[1][1])[0] or ("want_ntr" in rep and out[0][0] != rep["want_ntr"]):
+            fail.n += 1
     elif kind == "reorder-case":
         reorder_case(ctx, fail, rep["symbols"], np.array(rep["coords"]), [tuple(p) for p in rep["pairs"]],
-                     {int(k): int(v) for k, v in rep["mapping"].items()}, rep.get("label", "replay"))
+                     {int(k): int(v) for k, v in rep["mapping"].items()}, rep.get("label", "replay"),
+                     unit=rep.get("unit", "Ha Å^-2"), functional=rep.get("functional", False))
     elif kind == "motion-case":
         steps = [tuple(st) for st in rep["steps"]]
-        motion_case(ctx, fail, rep["symbols"], np.array(rep["coords"]), [tuple(p) for p in rep["pairs"]], steps, rep.get("label", "replay"))
+        motion_case(ctx, fail, rep["symbols"], np.array(rep["coords"]), [tuple(p) for p in rep["pairs"]], steps, rep.get("label", "replay"),
+                    unit=rep.get("unit", "Ha Å^-2"), functional=rep.get("functional", False))
     elif kind == "numhess-case":
         X, sy = np.array(rep["coords"]), rep["symbols"]
         nets = [MockNet(f"mock{i}", [tuple(p) for p in ps]) for i, ps in enumerate(rep["pairs"])]
         h, nc = rep.get("shift", 1e-3), rep.get("n_cores", 1)
         hA = float(Distance(h[0], units=h[1]).to("Å")) if isinstance(h, (list, tuple)) else h
         h = tuple(h) if isinstance(h, list) else h
-        if "hybrid_idxs" in rep:
+        if "gradient_failing_once" in rep:
+            fault_oracle_replay = Fails(ctx, limit=0)
+            fault_oracle_replay.ctx = fail.ctx
+            n_ = len(sy)
+            fault_oracle(type("C", (), {"count": lambda *a, **k: None, "hist": lambda *a, **k: None})(), fault_oracle_replay, n_, sy, X, nets[0],
+                         nets[0].hess(X.flatten()), ctx.work)
+            print("replay: fault stream failures by key:", fault_oracle_replay.keys)
+            fail.n += fault_oracle_replay.n
+        elif "hybrid_idxs" in rep:
             rows, raw, sym = run_calc(("hybrid", sy, X, nets, rep["hybrid_idxs"], False, h, nc))
             x = X.flatten()
             Hl, Hh = nets[0].hess(x), nets[1].hess(x)
@@ -1301,22 +1659,30 @@ def replay(ctx, obj):
 
 MANIFEST = {
     "technique": "Coq proof over a model whose formulas/index expressions are regenerated from source (ast translator) + exact "
-                 "model/implementation correspondence with mock gradient methods + frame-change oracles on analytic potentials",
-    "level_text": ("Machine-checked theorems (coq/C11/Props.v, closed under the global context) for EVERY field, gradient oracle and atom count: "
-                   "the numerically differentiated Hessian is symmetric; after calculate() row 3i+k holds the forward / central difference for atom i "
-                   "component k, for the serial loop, the process pool and any order in which rows are handed back; two-level mode: raw row r is "
-                   "high-level iff r/3 was requested, an index outside the species is rejected, and the returned entry (r,c) is the mean of raw (r,c) "
-                   "and (c,r) - so the requested atoms' COLUMNS hold the mean of high and low level (hybrid_columns_high_level_refuted, known finding "
-                   "HybridHessianCalculator|columns-averaged); translation vectors are mutually orthogonal and orthogonal to every rotation vector in the "
-                   "mass-weighted inner product (sum m_i (r_i - com) = 0); given orthonormal qr / eigh outputs the first n_tr projected modes are zero, the "
-                   "others orthonormal and orthogonal to the translation/rotation columns; negative eigenvalue -> negative frequency, scale factor "
-                   "multiplies every frequency; storing the Hessian in another unit hands the same mass-weighted matrix to the eigen-solver; the projected "
-                   "spectrum has exactly n_tr leading zeros, n_tr = 5 iff linear else 6.  Formulas and index expressions are regenerated from "
-                   "autode/hessians.py on every run."),
-    "level_note": ("PARTIAL: invariance of the eigen-decomposition (frequencies, mode shapes) under a common rotation/translation/relabelling, and that "
-                   "exactly n_tr modes vanish for a rigid molecule, are facts about numpy eigh/qr: exercised by oracles on 2..15 atom molecules with "
-                   "analytic Morse/harmonic Hessians (exactly orthogonal rational rotations, permutations, 5 units, scale factors; 1e-6 relative), not proved. "
-                   "Accuracy of the difference schemes is checked against bounds from the analytic third/fourth derivatives. Trusted: Coq kernel + vm_compute; "
-                   "the two translators (validated by correspondence); the hand model of the calculator control flow (validated exactly with mock gradient "
-                   "methods for every atom subset N<=4, both schemes, n_cores 1/2/4 and the serial branch); process-pool transport; sqrt and pi are parameters."),
+                 "model/implementation correspondence with mock gradient methods + frame-change / API-sequence / fault oracles on analytic potentials",
+    "level_text": ("Machine-checked theorems (coq/C11/Props.v, closed under the global context, coqchk: no axioms) for EVERY field, gradient oracle and atom "
+                   "count: after calculate() row 3i+k holds the forward / central difference for atom i component k (serial loop, process pool, any order of "
+                   "hand-back); the matrix returned by `.hessian` is symmetric and re-reading it is idempotent; two-level mode: raw row r is high-level iff r/3 "
+                   "was requested, an index outside the species is rejected, the returned entry (r,c) is the mean of raw (r,c) and (c,r) - so the requested "
+                   "atoms' COLUMNS hold the mean of high and low level (hybrid_columns_high_level_refuted; known finding HybridHessianCalculator|columns-averaged); "
+                   "translation vectors are mutually orthogonal and orthogonal to every rotation vector in the mass-weighted inner product; given orthonormal "
+                   "qr / eigh outputs the first n_tr returned modes are zero, the returned vibrational modes are orthonormal, and every returned mode is orthogonal "
+                   "to every vector in the span of the first n_tr columns of D, in particular to each normalised mass-weighted translation/rotation vector that qr "
+                   "put into that span (oracle premise); negative eigenvalue -> negative frequency, a non-negative scale factor multiplies every frequency (the "
+                   "premise is needed: freq_scale_premise_needed), precedence config > functional > 1; frequencies_proj is evaluated once per object when it is a "
+                   "cached_property (frequencies_after_scale_change: a later change of the configured factor is then ignored - known finding "
+                   "Hessian.frequencies_proj|scale-factor-cached); re-storing a Hessian in another unit hands the same mass-weighted matrix, entry by entry, to "
+                   "the eigen-solver; PARTIAL projected_count_partial: the list is n_tr literal zeros (n_tr = 5 iff are_linear answers True, else 6) followed by "
+                   "the converted eigenvalues.  Formulas, index expressions and the list of cached properties are regenerated from autode/hessians.py on every run."),
+    "level_note": ("PARTIAL, exercised by oracles and not proved: (i) invariance of the eigen-decomposition (frequencies, mode shapes / degenerate subspaces) under a "
+                   "common rotation / translation / relabelling; (ii) 'exactly' n_tr zero modes: that the remaining frequencies are non-zero and that the boolean "
+                   "answered by Atoms.are_linear is the geometric fact (checked against the rank of the translation/rotation space for exactly collinear, general "
+                   "and nearly linear generated geometries: keys Atoms.are_linear|misclassified / near-linear-labelling-dependent / tolerance); (iii) that qr puts "
+                   "the translation/rotation vectors into the span of the first n_tr columns; (iv) accuracy of the difference schemes (bounds from analytic third / "
+                   "fourth derivatives, and equality with an independently computed finite-difference matrix); (v) everything about the object life cycle - "
+                   "Species.rotate / translate / reorder_atoms / copy, deepcopy, storage units and functionals through the public API, retry after a failed gradient "
+                   "evaluation - is oracle-only.  Trusted: Coq kernel + vm_compute; the two translators (validated by correspondence); the hand model of the "
+                   "calculator control flow, _tr_vecs, mass weighting and mode back-transformation (validated exactly against the implementation: every atom subset "
+                   "N<=4, both schemes, n_cores 1/2/4/>3N, serial branch; check_tr_vecs, check_proj_cols, check_modes); process-pool transport; sqrt and pi are "
+                   "parameters; 40 source pins."),
 }
